@@ -73,6 +73,15 @@ std::vector<Scen> scenarios() {
         add("CreateDoubleArray(" + std::to_string(n) + ")", none, [n](Ctx& c) { static const double v[] = { 1.5, 2, 3 }; c.res_tree = LIB(cJSON_CreateDoubleArray(v, n)); c.failed = !c.res_tree; c.repr = wt(c.res_tree); });
         add("CreateStringArray(" + std::to_string(n) + ")", none, [n](Ctx& c) { static const char* v[] = { "x", "yy", "" }; c.res_tree = LIB(cJSON_CreateStringArray(v, n)); c.failed = !c.res_tree; c.repr = wt(c.res_tree); });
     }
+    // bulk constructors with more elements than any stack scratch array would hold, and a string list with NULL entries (refused as a whole today)
+    for (int n : { 8, 16, 17, 32, 33, 40, 64, 65, 100 }) {
+        add("CreateIntArray(" + std::to_string(n) + ")", none, [n](Ctx& c) { std::vector<int> v((size_t)n); for (int i = 0; i < n; i++) v[(size_t)i] = i * 3 - 7; c.res_tree = LIB(cJSON_CreateIntArray(v.data(), n)); c.failed = !c.res_tree; c.repr = wt(c.res_tree); });
+        add("CreateFloatArray(" + std::to_string(n) + ")", none, [n](Ctx& c) { std::vector<float> v((size_t)n); for (int i = 0; i < n; i++) v[(size_t)i] = (float)i * 0.5f; c.res_tree = LIB(cJSON_CreateFloatArray(v.data(), n)); c.failed = !c.res_tree; c.repr = wt(c.res_tree); });
+        add("CreateDoubleArray(" + std::to_string(n) + ")", none, [n](Ctx& c) { std::vector<double> v((size_t)n); for (int i = 0; i < n; i++) v[(size_t)i] = i * 1.25; c.res_tree = LIB(cJSON_CreateDoubleArray(v.data(), n)); c.failed = !c.res_tree; c.repr = wt(c.res_tree); });
+        add("CreateStringArray(" + std::to_string(n) + ")", none, [n](Ctx& c) { std::vector<std::string> ss((size_t)n); std::vector<const char*> v((size_t)n); for (int i = 0; i < n; i++) { ss[(size_t)i] = "s" + std::to_string(i); v[(size_t)i] = ss[(size_t)i].c_str(); } c.res_tree = LIB(cJSON_CreateStringArray(v.data(), n)); c.failed = !c.res_tree; c.repr = wt(c.res_tree); });
+    }
+    for (int pos = 0; pos < 3; pos++) add("CreateStringArray(NULL entry at " + std::to_string(pos) + ")", none, [pos](Ctx& c) { const char* v[] = { "x", "yy", "z" }; v[pos] = nullptr; c.res_tree = LIB(cJSON_CreateStringArray(v, 3)); c.failed = !c.res_tree; c.repr = wt(c.res_tree); });
+    add("CreateStringArray(only NULL)", none, [](Ctx& c) { const char* v[] = { nullptr }; c.res_tree = LIB(cJSON_CreateStringArray(v, 1)); c.failed = !c.res_tree; c.repr = wt(c.res_tree); });
     // ---- add helpers on an existing object
     auto objprep = [](Ctx& c) { c.trees.push_back(P("{\"x\":[1,2],\"y\":\"z\"}")); c.trees.push_back(P("[\"other\"]")); };
     typedef cJSON* (*H0)(cJSON* const, const char* const);
